@@ -72,6 +72,9 @@ ROWS = [
     ("C13", "fixed", "fix: MeshLine1 adaptive refinement numbers", "F19",
      "nested-child-in-no-old-cell/refine_adaptive/MeshLine1",
      "MeshLine1.refined(marked) numbered the new midpoints max(t)+1.. although they are appended at p.shape[1]..: wrong on a mesh whose point array ends with unused vertices"),
+    ("C13", "fixed", "fix: MeshLine1 adaptive refinement accepts a marked array", "F21",
+     "valid-duplicate-vertices/refine_adaptive/MeshLine1",
+     "MeshLine1.refined(marked) with an element listed twice in the marked array bisected it twice (duplicate midpoints and elements); the triangle and tetrahedron code treat the array as a set"),
     ("C18", "known", None, "K1",
      "conforming-hanging-node-or-hole/split/MeshHex1",
      "MeshHex1.to_meshtet on a mesh whose hexahedra do not all use the same local orientation (e.g. a file mesh; any of the 24 rotations of the reference numbering is admissible): the fixed 6-tetrahedra template cuts a shared quadrilateral face along different diagonals from its two sides, the tetrahedral mesh is not conforming"),
